@@ -47,6 +47,7 @@ fn main() {
         "limits" => more::limits(&a, &mut rep),
         "clones" => more::clones(&a, &mut rep),
         "meta" => more::meta(&a, &mut rep),
+        "dropbomb" => more::dropbomb(&a, &mut rep),
         "noop" => more::noop(&a, &mut rep),
         #[cfg(feature = "ext")]
         "par" => ext::par(&a, &mut rep),
